@@ -377,6 +377,45 @@ theorem legacy_perm (m : MethodS) (h : (m.fields.map (pyFieldName m.protoPlus)).
   rw [legacy_order m h]
   exact (List.filter_append_perm _ _).map _
 
+/-- **The legacy order does not depend on the field numbers**: two requests that declare the same
+(name, REQUIRED) sequence get the same list, whatever numbers the fields carry — in particular
+renumbering a message (fields added later, regrouped) never reorders the fix-up parameters. -/
+theorem legacy_order_number_independent (m m' : MethodS) (hp : m.protoPlus = m'.protoPlus)
+    (h : m.fields.map (fun f => (f.name, f.required)) = m'.fields.map (fun f => (f.name, f.required))) :
+    legacyNames m = legacyNames m' := by
+  have key : ∀ (fs fs' : List FieldS),
+      fs.map (fun f => (f.name, f.required)) = fs'.map (fun f => (f.name, f.required)) →
+      ∀ (p : Bool → Bool), (fs.filter (fun f => p f.required)).map (pyFieldName m.protoPlus) =
+        (fs'.filter (fun f => p f.required)).map (pyFieldName m.protoPlus) := by
+    intro fs
+    induction fs with
+    | nil => intro fs' h; cases fs' <;> simp_all
+    | cons a fs ih =>
+      intro fs' h p
+      cases fs' with
+      | nil => simp at h
+      | cons b fs' =>
+        simp only [List.map_cons, List.cons.injEq, Prod.mk.injEq] at h
+        obtain ⟨⟨hn, hr⟩, ht⟩ := h
+        have hpy : pyFieldName m.protoPlus a = pyFieldName m.protoPlus b := by simp [pyFieldName, hn]
+        simp only [List.filter_cons, hr]
+        split <;> simp [hpy, ih fs' ht p]
+  unfold legacyNames
+  rw [partition_eq_filter, partition_eq_filter, ← hp]
+  simp only [List.map_append]
+  have h1 := key m.fields m'.fields h id
+  have h2 := key m.fields m'.fields h not
+  simp only [id] at h1
+  rw [h1]
+  congr 2
+
+/-- the legacy order of a message whose field numbers run AGAINST the declaration order is still the
+declaration order (required first) -/
+theorem legacy_order_ignores_numbers_example :
+    legacyNames ⟨['G'], false, true,
+      [⟨['f'], false, 4⟩, ⟨['n'], true, 3⟩, ⟨['c'], false, 1⟩, ⟨['p'], true, 2⟩], false⟩
+      = [['n'], ['p'], ['f'], ['c']] := by decide
+
 /-- **The fix-up table has an entry for every RPC name**: keyed by the snake-cased RPC name, carrying
 the request fields of an RPC of exactly that name (the first one in `api.services` order). -/
 theorem fixup_has_every_rpc_name (api : Api) (m : MethodS) (hm : m ∈ allMethods api) :
@@ -411,14 +450,14 @@ theorem fixup_only_rpcs (api : Api) (e : Str × List Str) (he : e ∈ fixupTable
 
 section Examples
 
-def fName : FieldS := ⟨"name".toList, true⟩
-def fFilter : FieldS := ⟨"filter".toList, false⟩
-def fClass : FieldS := ⟨"class".toList, false⟩
-def fParent : FieldS := ⟨"parent".toList, true⟩
+def fName : FieldS := ⟨"name".toList, true, 3⟩
+def fFilter : FieldS := ⟨"filter".toList, false, 4⟩
+def fClass : FieldS := ⟨"class".toList, false, 1⟩
+def fParent : FieldS := ⟨"parent".toList, true, 2⟩
 
-/-- request: filter, name (REQUIRED), class, parent (REQUIRED) -/
+/-- request: filter = 4, name = 3 (REQUIRED), class = 1, parent = 2 (REQUIRED): numbers run against the declaration order -/
 def mGet : MethodS := ⟨"GetBook".toList, false, true, [fFilter, fName, fClass, fParent], false⟩
-def mImport : MethodS := ⟨"Import".toList, true, true, [⟨"from".toList, false⟩, ⟨"in".toList, true⟩], false⟩
+def mImport : MethodS := ⟨"Import".toList, true, true, [⟨"from".toList, false, 2⟩, ⟨"in".toList, true, 1⟩], false⟩
 def mReturn : MethodS := ⟨"Return".toList, false, true, [], false⟩
 def sLibrary : ServiceS := ⟨"Library".toList, [mGet, mImport]⟩
 def sArchive : ServiceS := ⟨"Archive".toList, [mReturn]⟩
@@ -447,8 +486,8 @@ example : fixupTable apiEx =
      ("return".toList, [])] := by decide
 
 def mGetBook : MethodS := ⟨"GetBook".toList, false, true, [fName], false⟩
-def mGetbook : MethodS := ⟨"Getbook".toList, false, true, [⟨"isbn".toList, false⟩], false⟩
-def mGetBookIsbn : MethodS := ⟨"GetBook".toList, false, true, [⟨"isbn".toList, false⟩], false⟩
+def mGetbook : MethodS := ⟨"Getbook".toList, false, true, [⟨"isbn".toList, false, 7⟩], false⟩
+def mGetBookIsbn : MethodS := ⟨"GetBook".toList, false, true, [⟨"isbn".toList, false, 7⟩], false⟩
 def apiCase : Api := ⟨[], [], [], [⟨"Library".toList, [mGetBook, mGetbook]⟩]⟩
 def apiShared : Api := ⟨[], [], [], [⟨"Library".toList, [mGetBook]⟩, ⟨"Archive".toList, [mGetBookIsbn]⟩]⟩
 def mInsert : MethodS := ⟨"Insert".toList, false, true, [], true⟩
